@@ -407,7 +407,22 @@ def sabs(v):
     return abs(v)
 
 
+class NumStr(str):
+    """Opaque spelling of a real number: a string whose only observable content is the number it spells.
+    float(NumStr) is its value; a float formatted with >= 15 significant digits (f'{x:.15e}') is modelled as a
+    NumStr of the same value (assumption A-fmt: the relative rounding 5e-16 of the formatting is ignored)."""
+    _n = 0
+
+    def __new__(cls, value):
+        NumStr._n += 1
+        o = super().__new__(cls, f'<number#{NumStr._n}>')
+        o.value = value
+        return o
+
+
 def to_real(v):
+    if isinstance(v, NumStr):
+        return to_real(v.value)
     if is_sym(v) and z3.is_int(v.t):
         return Sym(z3.ToReal(v.t))
     if isinstance(v, int) and not isinstance(v, bool):
